@@ -90,19 +90,48 @@ impl EnfGroup {
                 e.next_holder_commit_num,
                 e.next_counterparty_commit_num,
                 e.next_counterparty_revoke_num,
-                e.current_holder_commit_info.as_ref().map(|i| i.to_broadcaster_value_sat),
+                e.current_holder_commit_info.as_ref().map(holder_content_id),
                 e.current_counterparty_point,
-                e.current_counterparty_commit_info.as_ref().map(|i| i.to_countersigner_value_sat),
+                e.current_counterparty_commit_info.as_ref().map(cp_content_id),
             ),
             None => (0, 0, 0, None, None, None),
         };
-        let content_pick = |rng: &mut Rng| -> u64 { if rng.chance(1, 12) { 9 } else { rng.below(4) } };
+        // counterparty content: every component drawn independently (canonical id, see `cp_content`)
+        let cp_pick = |rng: &mut Rng| -> u64 {
+            let b = rng.below(4);
+            let f = if rng.chance(1, 2) { 0 } else { rng.below(3) };
+            let t = if rng.chance(3, 4) { 0 } else { 1 };
+            let (h1, h2) = match rng.below(10) { 0..=4 => (0, 0), 5..=7 => (1 + rng.below(16), 0), _ => (1 + rng.below(16), 1 + rng.below(16)) };
+            let bad = if rng.chance(1, 14) { 1 } else { 0 };
+            cp_canonical(b + 4 * f + 12 * t + 24 * h1 + 408 * h2 + 6936 * bad)
+        };
+        // a retry that differs from the signed content `c0` in EXACTLY ONE component: feerate, to_holder,
+        // to_counterparty, one field of one HTLC (amount / hash / cltv / direction), an HTLC added or removed
+        let cp_mutate = |rng: &mut Rng, c0: u64| -> u64 {
+            let (b, f, t, h1, h2, bad) = (c0 % 4, c0 / 4 % 3, c0 / 12 % 2, c0 / 24 % 17, c0 / 408 % 17, c0 / 6936 % 2);
+            let flip = |h: u64, bit: u64| -> u64 { if h == 0 { 0 } else { 1 + ((h - 1) ^ bit) } };
+            let (mut b, mut f, mut t, mut h1, mut h2) = (b, f, t, h1, h2);
+            match rng.below(9) {
+                0 => f = (f + 1 + rng.below(2)) % 3,
+                1 => b = (b + 1 + rng.below(3)) % 4,
+                2 => t = 1 - t,
+                3 => if h1 != 0 { h1 = flip(h1, 4) } else { h1 = 1 + rng.below(16) },   // amount
+                4 => if h1 != 0 { h1 = flip(h1, 2) } else { h1 = 1 + rng.below(16) },   // hash
+                5 => if h1 != 0 { h1 = flip(h1, 1) } else { h1 = 1 + rng.below(16) },   // cltv
+                6 => if h1 != 0 { h1 = flip(h1, 8) } else { h1 = 1 + rng.below(16) },   // direction
+                7 => if h2 != 0 { h2 = 0 } else if h1 != 0 { h1 = 0 } else { h1 = 1 + rng.below(16) }, // removed / added
+                _ => if h1 == 0 { h1 = 1 + rng.below(16) } else if h2 == 0 { h2 = 1 + rng.below(16) } else { h2 = flip(h2, 1 << rng.below(4)) },
+            }
+            cp_canonical(b + 4 * f + 12 * t + 24 * h1 + 408 * h2 + 6936 * bad)
+        };
         // holder contents: also the HTLC-carrying ones (4..=8 = 1..=5 HTLCs)
         let hcontent_pick = |rng: &mut Rng| -> u64 {
             let r = rng.below(100);
-            if r < 8 { 9 } else if r < 50 { rng.below(4) } else { 4 + rng.below(5) }
+            let base = if r < 8 { 9 } else if r < 50 { rng.below(4) } else { 4 + rng.below(5) };
+            base + 16 * (if rng.chance(1, 2) { 0 } else { rng.below(3) })
         };
-        let cur_htlcs = e.as_ref().and_then(|e| e.current_holder_commit_info.as_ref().map(|i| !i.received_htlcs.is_empty())).unwrap_or(false);
+        let cur_htlcs = e.as_ref().and_then(|e| e.current_holder_commit_info.as_ref().map(|i| !i.received_htlcs.is_empty())).unwrap_or(false)
+            || e.as_ref().and_then(|e| e.current_counterparty_commit_info.as_ref().map(|i| !i.htlcs_is_empty() || i.to_broadcaster_value_sat != 0)).unwrap_or(false);
         let kind = self.pick_kind(rng);
         match kind {
             "validate" | "hvalidate" => {
@@ -113,9 +142,11 @@ impl EnfGroup {
                 if n.checked_add(1) == Some(next) && rng.chance(3, 4) {
                     // retry of the current commitment: mostly the same content
                     if let Some(v) = cur_c {
-                        for k in ALL_CONTENTS {
-                            if content(k).0 == v {
-                                c = k;
+                        if v != 999 {
+                            c = v;
+                            // sometimes the same commitment with ONLY the feerate changed
+                            if rng.chance(1, 5) {
+                                c = v % 16 + 16 * ((v / 16 + 1 + rng.below(2)) % 3);
                             }
                         }
                     }
@@ -146,9 +177,11 @@ impl EnfGroup {
                 let mut c = hcontent_pick(rng);
                 if n.checked_add(1) == Some(next) && rng.chance(3, 4) {
                     if let Some(v) = cur_c {
-                        for k in ALL_CONTENTS {
-                            if content(k).0 == v {
-                                c = k;
+                        if v != 999 {
+                            c = v;
+                            // sometimes the same commitment with ONLY the feerate changed
+                            if rng.chance(1, 5) {
+                                c = v % 16 + 16 * ((v / 16 + 1 + rng.below(2)) % 3);
                             }
                         }
                     }
@@ -169,14 +202,21 @@ impl EnfGroup {
                 // for a retry mostly the point that was signed, sometimes a changed one
                 let signed = w.mon.cp_signed.get(&n).copied();
                 let (ptid, c) = match (retry, signed, cpt, cci) {
-                    (true, Some((p0, c0)), Some(_), Some(_)) if rng.chance(3, 4) => (p0, c0),
+                    (true, Some((p0, c0)), Some(_), Some(_)) => match rng.below(10) {
+                        0..=3 => (p0, c0),                                  // identical retry
+                        4..=7 => (p0, cp_mutate(rng, c0)),                  // one component of the content changed
+                        8 => (cp_point_id((p0 - 1000) / 4, 1 - ((p0 - 1000) % 4).min(1)), c0), // point changed
+                        _ => (p0, cp_pick(rng)),
+                    },
                     _ => {
                         let kind = if rng.chance(1, 5) { 1 } else { 0 };
                         let src = if rng.chance(1, 10) { n.wrapping_add(1) % 90_000 } else { n % 90_000 };
-                        (cp_point_id(src, kind), content_pick(rng))
+                        (cp_point_id(src, kind), cp_pick(rng))
                     }
                 };
-                format!("signcp {} {} {} {} {}", n, ptid, c, if content_policy_ok(c, 1) { 1 } else { 0 }, rng.range(1, 2))
+                // retries mostly through phase 2 (the entry point that returns HTLC signatures)
+                let ph = if retry && rng.chance(2, 3) { 2 } else { rng.range(1, 2) };
+                format!("signcp {} {} {} {} {}", n, ptid, c, if cp_content_policy_ok(c, n) { 1 } else { 0 }, ph)
             }
             "revokecp" => {
                 let base = if rng.chance(1, 6) { cr.saturating_sub(1) } else { cr };
@@ -218,7 +258,8 @@ impl Group for EnfGroup {
         "enforcement: real Node + channel (stub, then setup_channel) behind KVVPersister<MemoryKVVStore>; requests \
          validate (phase 1/2; 10 contents: 0..5 HTLCs and a policy-violating one; signature lists: genuine, wrong commitment sig, first/middle/last HTLC sig wrong, empty, n-1, n+1, swapped), \
          revoke, activate, get point/secret/secret-or-none, sign holder (phase2/recovery/redundant), mutual close, sign \
-         counterparty commitment (phase 1/2, seeded/unrelated/changed points), counterparty revocation (right/stale/future/\
+         counterparty commitment (phase 1/2; content = full record with independent feerate, balances and up to two HTLCs of either \
+         direction; retries of signed numbers with exactly one component or the point changed), counterparty revocation (right/stale/future/\
          unrelated secrets), real handler arms ValidateCommitmentTx(2), RevokeCommitmentTx, GetPerCommitmentPoint(2), SignLocalCommitmentTx2, SignCommitmentTx, \
          ValidateRevocation, SignRemoteCommitmentTx2, SignMutualCloseTx2, CheckFutureSecret at protocol versions 4..6, restart = Node::restore_node; numbers in {counter-2..counter+2} and u64 extremes; non-trivial = \
          at least one accepted state-changing request and at least one refusal"
@@ -252,6 +293,10 @@ impl Group for EnfGroup {
             f("setup|hvalidate 5 0 0 1 1 1|hvalidate 5 1 6 2 1 6|restart|hrevoke 5 0|hvalidate 5 1 6 0 1 8|hrevoke 5 0|hvalidate 5 1 6 1 1 1|hrevoke 5 0|hvalidate 4 2 5 2 1 5|restart|hvalidate 4 2 5 1 1 7|hgetpoint 4 3"),
             // every handler arm that touches the enforcement state, through the real handler
             f("hcheckfuture 0 0|setup|hvalidate1 6 0 0 1 1 1|hsigncp 0 1000 0 1 2|hvalidate1 6 1 5 1 1 1|hcheckfuture 0 0|hcheckfuture 0 1|hrevoke 6 0|hcheckfuture 1 0|hsigncp 1 1004 1 1 2|hsigncp 1 1005 1 1 2|hmutualclose 0 2 1|hvalidate1 4 2 0 1 1 1|hmutualclose 0 2 0|hsignholder 6 1|hsigncommit 6 2|hmutualclose 1 2 1|hsignholder 5 2|hrevoke 6 1|hvalidate1 5 3 6 2 1 5"),
+            // re-signing an already signed counterparty number with exactly one component changed
+            // (feerate, to_holder, to_counterparty, HTLC amount / hash / cltv / direction, HTLC removed, point),
+            // phase 2, phase 1 and through the handler; the identical retry is accepted
+            f("setup|signcp 0 1000 0 1 2|signcp 1 1004 3713 1 2|signcp 1 1004 3717 1 2|signcp 1 1004 3714 1 2|signcp 1 1004 3701 1 2|signcp 1 1004 3809 1 2|signcp 1 1004 3761 1 2|signcp 1 1004 3737 1 2|signcp 1 1004 3905 1 2|signcp 1 1004 41 1 2|signcp 1 1005 3713 1 2|signcp 1 1004 3713 1 2|hsigncp 1 1004 3717 1 2|signcp 1 1004 3709 1 1|hsigncp 1 1004 3713 1 2|restart|signcp 1 1004 3717 1 2|signcp 1 1004 3713 1 1"),
             // F1 witness (fixed by 208b946): validate n+1, sign n, revoke n
             f("setup|validate 0 0 1 1 2|activate|validate 1 1 1 1 2|signholder 0|revoke 1|getsecret 0|restart|revoke 1|hrevoke 6 0"),
             // invalid signatures never open the way to a secret
